@@ -205,7 +205,11 @@ class GMRF(Distribution):
             F = dft(self.dim, scale='sqrtn')   # unitary DFT matrix
             eigv = np.hstack([self._L_eigval, self._L_eigval[-1]])  # repeat last eigval to complete dim
             L_sqrt = diags(np.sqrt(eigv)) 
-            s = self.mean[:, np.newaxis] + (1/np.sqrt(self.prec))*np.real(F.conj() @ splinalg.spsolve(L_sqrt, xi))
+            perturbation = (1/np.sqrt(self.prec))*np.real(F.conj() @ splinalg.spsolve(L_sqrt, xi))
+            if N == 1: # spsolve returns a 1D array for a single right-hand side
+                s = self.mean + perturbation
+            else:
+                s = self.mean[:, np.newaxis] + perturbation
             
         elif (self._bc_type == 'neumann'):
 
